@@ -151,6 +151,46 @@ func init() {
 				c.Done()
 				c13Run(x, items, terms)
 			}},
+			{Name: "order-by-on-heads", Quick: []int{0, 1, 2, 3}, ShardDepth: 3, Run: func(c *explore.Chooser, x *explore.Ctx, n int) {
+				// the sorted sequence under every head: the context variable, the root, a named variable, a
+				// parenthesised path, each with and without a following step, on an array at the top
+				items := c13Items(c, n, c13Num, c13Num)
+				k := c13Keys[c.Choose(len(c13Keys))]
+				dir := c13Dirs[c.Choose(3)]
+				head := c.Choose(5)
+				follow := c.Bool()
+				c.Done()
+				terms := []ref.SortTerm{{Dir: dir, Key: k.node()}}
+				var input interface{} = items
+				var node ref.Node
+				mk := func(h ref.Node) ref.Node {
+					srt := &ref.Sort{X: h, Terms: terms}
+					if follow {
+						return &ref.Path{Steps: []ref.Node{srt, rname("id")}, KeepAt: -1}
+					}
+					return srt
+				}
+				switch head {
+				case 0:
+					node = mk(rvar(""))
+				case 1:
+					node = mk(rvar("$"))
+				case 2:
+					node = &ref.Paren{Exprs: []ref.Node{&ref.Assign{Name: "v", Val: rvar("")}, mk(rvar("v"))}}
+				case 3:
+					node = mk(&ref.Paren{Exprs: []ref.Node{rvar("")}})
+				default:
+					input = map[string]interface{}{"a": items}
+					node = mk(rpath(rname("a")))
+				}
+				prog := ref.Text(node)
+				want, werr := ref.Eval(node, input, ref.NewEnv(input))
+				got := checkRef(x, prog, input, want, werr)
+				x.Outcome(got.Short())
+				if got.Kind == impl.Value {
+					x.Nontrivial()
+				}
+			}},
 			{Name: "order-by-three-terms", Thorough: []int{3}, ShardDepth: 5, Run: func(c *explore.Chooser, x *explore.Ctx, n int) {
 				items := c13Items(c, n, c13Num, c13Num)
 				terms := make([]ref.SortTerm, 3)
